@@ -404,6 +404,7 @@ def c06_g5(prog, ctx):
     rederive_gate_summary(prog, ctx, "G5")
     nothing_on_failure(prog, ctx, "G5", names=("econf_readFileWithCallback", "econf_readConfigWithCallback", "econf_readDirsWithCallback",
                                                  "econf_readDirsHistoryWithCallback"))
+    no_early_success(prog, ctx, "G5")
     # the merge is control dependent on success of the history
     f = prog.fn("readConfigWithCallback")
     cfg = f.cfg
@@ -416,11 +417,43 @@ def c06_g5(prog, ctx):
             ctx.fail("G5", "merge only after a successful history", mc[0].where, "the merge runs although reading failed", key="merge-after-failure")
 
 
+def no_early_success(prog, ctx, rule):
+    """the loops over files (drop-ins of a directory, directories of a layer, layers) are never left by a `return` that reports
+    success: that would end the read with part of the tree unread - and unchecked - while telling the caller all went well"""
+    n = 0
+    for name in ("check_conf_dir", "traverse_conf_dirs", "readConfigHistoryWithCallback"):
+        if not prog.has_fn(name):
+            continue
+        f = prog.fn(name)
+        a = analyse(prog, name)
+        if a.truncated:
+            ctx.inconclusive(rule, "%s: no successful return from inside a loop over files" % name, f.where, "state space truncated")
+            continue
+        bad = None
+        for ret, st in a.exit_states:
+            if ret is None or not any(x.k in ("ForStmt", "WhileStmt", "DoStmt") for x in ret.ancestors()):
+                continue
+            const = query.returned_constant(ret)
+            v = render(ret.children[0]) if ret.children else None
+            if const in ("ECONF_SUCCESS", 0) or (const is None and st.facts.get(v) == "Z"):
+                bad = (ret, st)
+        n += 1
+        inst = "%s: no successful return from inside a loop over files" % name
+        if bad:
+            ctx.fail(rule, inst, bad[0].where,
+                     "`%s` inside the loop can be reached with the value ECONF_SUCCESS: the files that follow are never read (nor shown to the callback), and "
+                     "the caller is told the read succeeded" % render(bad[0]), key="early-success:%s" % name, path=list(bad[1].trail)[-6:])
+        else:
+            ctx.ok(rule, inst, f.where, "every return inside a loop carries a non-zero code in all %d exit states" % len(a.exit_states))
+    return n
+
+
 def c13_e3(prog, ctx):
     for name in ("read_file_with_callback", "econf_readFileWithCallback", "readConfigHistoryWithCallback"):
         report(ctx, "E3", name, analyse(prog, name))
     rederive_gate_summary(prog, ctx, "E3")
     nothing_on_failure(prog, ctx, "E3")
+    no_early_success(prog, ctx, "E3")
 
 
 def c15_o4(prog, ctx):
